@@ -155,7 +155,7 @@ def compile_fn(src, ns, fname):
     return ns[fname]
 
 
-def make_args(params, *, bad_at=None, style_seed=0, n_va=2, n_vk=2, omit_defaults=False):
+def make_args(params, *, bad_at=None, style_seed=0, n_va=2, n_vk=2, omit_defaults=False, force_shadow=False):
     """Build (args, kwargs, expected_received) for a binding call.  bad_at = index of the parameter
     that receives an ill-typed value (None = all well typed).  Positional-or-keyword parameters are passed
     positionally or by keyword depending on style_seed."""
@@ -200,6 +200,13 @@ def make_args(params, *, bad_at=None, style_seed=0, n_va=2, n_vk=2, omit_default
             pool = [n for n in ("ret0", "T0", "default0", "fn0", "ret1", "bound", "memos", "extra_kw0", "extra_kw1") if n not in taken]
             start = style_seed % max(1, len(pool) - n_vk + 1)
             vs = {pool[start + j]: (bad_value(p["ann"], i + j) if bad else good_value(p["ann"], i + 10 * j)) for j in range(min(n_vk, len(pool)))}
+            # a keyword spelled like a positional-only parameter is legal and lands in **kwargs
+            # (only for positional-only parameters that ARE passed positionally: leaving a defaulted positional-only
+            # parameter out while **kwargs carries its name trips a CPython bug in inspect.Signature.bind -- a listed
+            # known finding of C07, reachable through force_shadow only)
+            po_names = [q["name"] for q in params if q["kind"] == "po" and (force_shadow or not (q["has_default"] and omit_defaults))]
+            if po_names and (style_seed % 2 == 0 or force_shadow):
+                vs[po_names[style_seed % len(po_names)]] = bad_value(p["ann"], i + 7) if bad else good_value(p["ann"], i + 70)
             kwargs.update(vs)
             recv[p["name"]] = vs
     return args, kwargs, recv
